@@ -187,7 +187,7 @@ theorem afaStartRecord_header (st : AfaSt) (nm : Bytes) (desc : Option Bytes) (h
     (hd : ∀ d, desc = some d → descOk d) (ha : st.idx ≤ st.sqalloc ∧ 0 < st.sqalloc) :
     afaStartRecord st (headerOf nm desc) =
       .inl { st with lead := false, sqalloc := expandAlloc st.idx st.sqalloc, names := st.names ++ [nm],
-                     sqdesc := (match desc with | some d => setOptRow st.sqdesc st.idx d | none => st.sqdesc), cur := none } := by
+                     sqdesc := setOptRowO st.sqdesc st.idx desc, cur := none } := by
   have hex : ¬ (st.idx ≥ expandAlloc st.idx st.sqalloc) := by
     obtain ⟨ha1, ha2⟩ := ha
     unfold expandAlloc
@@ -204,7 +204,7 @@ theorem afaStartRecord_header (st : AfaSt) (nm : Bytes) (desc : Option Bytes) (h
     simp only [headerOf, List.append_nil]
     have hlen' : ¬ ((62 :: nm).length ≤ 1) := by simp [hnm]
     simp only [hlen', decide_false, Bool.false_or, bne_self_eq_false, Bool.false_eq_true, if_false, memtok_name nm hn, hex,
-      List.isEmpty_nil, if_true, cstr_id nm hnm0]
+      List.isEmpty_nil, if_true, cstr_id nm hnm0, setOptRowO]
   | some d =>
     have hdk := hd d rfl
     unfold afaStartRecord
@@ -213,7 +213,7 @@ theorem afaStartRecord_header (st : AfaSt) (nm : Bytes) (desc : Option Bytes) (h
     have hdne : d.isEmpty = false := by
       obtain ⟨⟨c0, t0, hd0, _⟩, _⟩ := hdk; subst hd0; rfl
     simp only [hlen', decide_false, Bool.false_or, bne_self_eq_false, Bool.false_eq_true, if_false, memtok_name_desc nm d hn hdk, hex,
-      hdne, cstr_id nm hnm0, cstr_id d hdk.2]
+      hdne, cstr_id nm hnm0, cstr_id d hdk.2, setOptRowO]
 
 /-! ## the round trip -/
 
@@ -223,9 +223,7 @@ def Msa.stored (m : Msa) (i : Nat) : Bytes := if m.digital then m.ax.getD i [] e
 /-- the per-sequence descriptions an AFA file carries for the first `k` records, as the reader rebuilds them -/
 def afaDescs (m : Msa) : Nat → OptRows
   | 0 => none
-  | k + 1 => match optAt m.sqdesc k with
-    | some d => setOptRow (afaDescs m k) k d
-    | none => afaDescs m k
+  | k + 1 => setOptRowO (afaDescs m k) k (optAt m.sqdesc k)
 
 /-- everything aligned FASTA can represent of `m`: names, rows, descriptions; default weights -/
 def afaProject (cfg : Cfg) (m : Msa) : Msa :=
@@ -263,8 +261,10 @@ structure AfterRec (cfg : Cfg) (m : Msa) (k : Nat) (st : AfaSt) : Prop where
 
 theorem afaHeader_eq (abc : Option Abc) (cfg : Cfg) (enc : UInt8 → UInt8) (m : Msa) (h : AfaWritable abc cfg enc m) (i : Nat) :
     afaHeader m i = headerOf (m.names.getD i []) (optAt m.sqdesc i) := by
+  have hacc : optAt m.sqacc i = none := by simp [optAt, h.acc_none]
   unfold afaHeader headerOf
-  simp [h.acc_none, optAt]
+  rw [hacc]
+  cases optAt m.sqdesc i <;> simp
 
 theorem pieces_ok (abc : Option Abc) (cfg : Cfg) (enc : UInt8 → UInt8) (m : Msa) (h : AfaWritable abc cfg enc m) (i : Nat) (hi : i < m.nseq) :
     (∀ c ∈ chunks60 ((m.rowText abc i).take m.alen), PieceOk cfg enc c) ∧ chunks60 ((m.rowText abc i).take m.alen) ≠ [] := by
@@ -312,14 +312,22 @@ theorem afaSteps_record (abc : Option Abc) (cfg : Cfg) (enc : UInt8 → UInt8) (
         = 62 :: (m.names.getD k [] ++ match optAt m.sqdesc k with | some d => 32 :: d | none => []) := by
       simp [List.dropWhile, isSpace]
     simp only [hd, beq_self_eq_true, if_true, hfin]
+    try rw [hst.lead]
   have hstart := afaStartRecord_header
     { st with rows := st.rows ++ [m.stored (k - 1)], idx := st.idx + 1, alen := m.alen, cur := none }
     (m.names.getD k []) (optAt m.sqdesc k) (h.name_ok k hk) (h.desc_ok k hk)
     ⟨by show st.idx + 1 ≤ st.sqalloc; have := hst.alloc; omega, by show 0 < st.sqalloc; have := hst.alloc; omega⟩
   rw [← afaHeader_eq abc cfg enc m h k] at hstart
   obtain ⟨hp, hpne⟩ := pieces_ok abc cfg enc m h k hk
-  have hsteps := afaSteps_pieces cfg enc (chunks60 ((m.rowText abc k).take m.alen)) _ hp rfl (Or.inl rfl) hpne
-  refine ⟨_, ?_, ?_⟩
+  have hsteps := afaSteps_pieces cfg enc (chunks60 ((m.rowText abc k).take m.alen))
+    { lead := false, sqalloc := expandAlloc (st.idx + 1) st.sqalloc, names := st.names ++ [m.names.getD k []],
+      sqdesc := setOptRowO st.sqdesc (st.idx + 1) (optAt m.sqdesc k),
+      rows := st.rows ++ [m.stored (k - 1)], idx := st.idx + 1, alen := m.alen, cur := none }
+    hp rfl (Or.inl rfl) hpne
+  refine ⟨{ lead := false, sqalloc := expandAlloc (st.idx + 1) st.sqalloc, names := st.names ++ [m.names.getD k []],
+            sqdesc := setOptRowO st.sqdesc (st.idx + 1) (optAt m.sqdesc k),
+            rows := st.rows ++ [m.stored (k - 1)], idx := st.idx + 1, alen := m.alen,
+            cur := some (mkRow cfg.digital (curCodes cfg.digital none ++ (chunks60 ((m.rowText abc k).take m.alen)).flatten.map enc)) }, ?_, ?_⟩
   · show stepsFrom (afaStep cfg) st (afaHeader m k :: chunks60 ((m.rowText abc k).take m.alen)) = _
     simp only [stepsFrom]
     rw [hhdr, hstart]
@@ -353,9 +361,140 @@ theorem afaSteps_record (abc : Option Abc) (cfg : Cfg) (enc : UInt8 → UInt8) (
           have : k + 1 - 1 = k := by omega
           rw [this, h.row_enc k hk],
         descs := by
-          show (match optAt m.sqdesc k with | some d => setOptRow st.sqdesc (st.idx + 1) d | none => st.sqdesc) = afaDescs m (k + 1)
+          show setOptRowO st.sqdesc (st.idx + 1) (optAt m.sqdesc k) = afaDescs m (k + 1)
           rw [hidx, hst.descs]
-          simp only [afaDescs]
-          cases optAt m.sqdesc k <;> rfl }
+          simp only [afaDescs] }
+
+/-- the lines of the first record, from the initial state -/
+theorem afaSteps_first (abc : Option Abc) (cfg : Cfg) (enc : UInt8 → UInt8) (m : Msa) (h : AfaWritable abc cfg enc m) :
+    ∃ st', stepsFrom (afaStep cfg) {} (afaRecLines abc m 0) = .inl st' ∧ AfterRec cfg m 1 st' := by
+  have hk : 0 < m.nseq := h.n1
+  have hhdr : afaStep cfg {} (afaHeader m 0) = afaStartRecord {} (afaHeader m 0) := by
+    rw [afaHeader_eq abc cfg enc m h 0]
+    unfold afaStep
+    have hnb : isBlankLine (headerOf (m.names.getD 0 []) (optAt m.sqdesc 0)) = false := by
+      simp [isBlankLine, headerOf, inDelim, blankTab]
+    have hd : (headerOf (m.names.getD 0 []) (optAt m.sqdesc 0)).dropWhile isSpace = headerOf (m.names.getD 0 []) (optAt m.sqdesc 0) := by
+      simp [headerOf, List.dropWhile, isSpace]
+    simp only [hnb, hd, if_true, Bool.false_eq_true, if_false]
+    simp [headerOf]
+  have hstart := afaStartRecord_header {} (m.names.getD 0 []) (optAt m.sqdesc 0) (h.name_ok 0 hk) (h.desc_ok 0 hk) ⟨by decide, by decide⟩
+  rw [← afaHeader_eq abc cfg enc m h 0] at hstart
+  obtain ⟨hp, hpne⟩ := pieces_ok abc cfg enc m h 0 hk
+  have hsteps := afaSteps_pieces cfg enc (chunks60 ((m.rowText abc 0).take m.alen))
+    { lead := false, sqalloc := expandAlloc 0 16, names := [] ++ [m.names.getD 0 []],
+      sqdesc := setOptRowO none 0 (optAt m.sqdesc 0), rows := [], idx := 0, alen := 0, cur := none }
+    hp rfl (Or.inl rfl) hpne
+  refine ⟨{ lead := false, sqalloc := expandAlloc 0 16, names := [] ++ [m.names.getD 0 []],
+            sqdesc := setOptRowO none 0 (optAt m.sqdesc 0), rows := [], idx := 0, alen := 0,
+            cur := some (mkRow cfg.digital (curCodes cfg.digital none ++ (chunks60 ((m.rowText abc 0).take m.alen)).flatten.map enc)) }, ?_, ?_⟩
+  · show stepsFrom (afaStep cfg) {} (afaHeader m 0 :: chunks60 ((m.rowText abc 0).take m.alen)) = _
+    simp only [stepsFrom]
+    rw [hhdr, hstart]
+    simp only
+    exact hsteps
+  · have hlt : 0 < m.names.length := hk
+    exact
+      { lead := rfl,
+        names := by
+          show [] ++ [m.names.getD 0 []] = m.names.take 1
+          rw [List.take_succ]
+          simp [List.getD_eq_getElem?_getD, List.getElem?_eq_getElem hlt],
+        rows := rfl, idx := rfl,
+        alloc := by show 0 < expandAlloc 0 16; decide,
+        alen := Or.inl rfl,
+        cur := by
+          show some (mkRow cfg.digital (curCodes cfg.digital none ++ (chunks60 ((m.rowText abc 0).take m.alen)).flatten.map enc))
+            = some (m.stored (1 - 1))
+          rw [chunks60_flatten, curCodes_none, List.nil_append, h.row_enc 0 hk],
+        descs := by
+          show setOptRowO none 0 (optAt m.sqdesc 0) = afaDescs m 1
+          simp [afaDescs] }
+
+/-- all the lines of the first `k` records -/
+theorem afaSteps_records (abc : Option Abc) (cfg : Cfg) (enc : UInt8 → UInt8) (m : Msa) (h : AfaWritable abc cfg enc m) :
+    ∀ k, 1 ≤ k → k ≤ m.nseq →
+      ∃ st, stepsFrom (afaStep cfg) {} ((List.range k).flatMap (afaRecLines abc m)) = .inl st ∧ AfterRec cfg m k st := by
+  intro k
+  induction k with
+  | zero => intro h0; omega
+  | succ k ih =>
+    intro _ hk
+    by_cases hk0 : k = 0
+    · subst hk0
+      simpa using afaSteps_first abc cfg enc m h
+    · obtain ⟨st, hs, hst⟩ := ih (by omega) (by omega)
+      obtain ⟨st', hs', hst'⟩ := afaSteps_record abc cfg enc m h k (by omega) (by omega) st hst
+      refine ⟨st', ?_, hst'⟩
+      rw [List.range_succ, List.flatMap_append]
+      rw [stepsFrom_append (afaStep cfg) _ _ {} st hs]
+      simpa using hs'
+
+/-- end of input after the last record -/
+theorem afaFinish_after (abc : Option Abc) (cfg : Cfg) (enc : UInt8 → UInt8) (m : Msa) (h : AfaWritable abc cfg enc m)
+    (st : AfaSt) (hst : AfterRec cfg m m.nseq st) : afaFinish cfg st = .ok (afaProject cfg m) := by
+  have hn := h.n1
+  have hrow := h.row_enc (m.nseq - 1) (by omega)
+  have hlen : rowLen cfg.digital st.cur = m.alen := by
+    rw [hst.cur, hrow, rowLen_mkRow]
+    simpa using h.row_len (m.nseq - 1) (by omega)
+  have ha1 := h.alen1
+  have hfin : afaFinishRecord cfg st =
+      .inl { st with rows := st.rows ++ [m.stored (m.nseq - 1)], idx := st.idx + 1, alen := m.alen, cur := none } := by
+    unfold afaFinishRecord
+    simp only [hlen]
+    have h0 : (m.alen == 0) = false := by simp; omega
+    have h1 : (st.alen != 0 && st.alen != m.alen) = false := by
+      rcases hst.alen with h | h <;> simp [h]
+    simp only [h0, Bool.false_eq_true, if_false, h1, hst.cur]
+  unfold afaFinish
+  simp only [hst.lead, Bool.false_eq_true, if_false, hfin]
+  have hidx : st.idx + 1 = m.nseq := by rw [hst.idx]; omega
+  have hrows : st.rows ++ [m.stored (m.nseq - 1)] = (List.range m.nseq).map m.stored := by
+    rw [hst.rows]
+    have : m.nseq = (m.nseq - 1) + 1 := by omega
+    conv => rhs; rw [this, List.range_succ]
+    simp
+  have hnames : st.names = m.names := by
+    rw [hst.names]; exact List.take_length
+  simp only [afaProject, hidx, hrows, hnames, hst.descs]
+
+/-- **AFA round trip on lines**: reading the lines `esl_msafile_afa_Write` prints gives back everything AFA can represent -/
+theorem afaRead_writeLines (abc : Option Abc) (cfg : Cfg) (enc : UInt8 → UInt8) (m : Msa) (h : AfaWritable abc cfg enc m) :
+    afaRead cfg (afaWriteLines abc m) = (.ok (afaProject cfg m), []) := by
+  obtain ⟨st, hs, hst⟩ := afaSteps_records abc cfg enc m h m.nseq h.n1 (Nat.le_refl _)
+  unfold afaRead afaWriteLines
+  have := runLines_append_inl (afaStep cfg) (afaFinish cfg) _ [] {} st hs
+  rw [List.append_nil] at this
+  rw [this]
+  simp [runLines, afaFinish_after abc cfg enc m h st hst]
+
+theorem afaWriteLines_ok (abc : Option Abc) (cfg : Cfg) (enc : UInt8 → UInt8) (m : Msa) (h : AfaWritable abc cfg enc m) :
+    ∀ l ∈ afaWriteLines abc m, lineOk l := by
+  intro l hl
+  unfold afaWriteLines at hl
+  rw [List.mem_flatMap] at hl
+  obtain ⟨i, hi, hl⟩ := hl
+  have hi' : i < m.nseq := List.mem_range.mp hi
+  unfold afaRecLines at hl
+  rcases List.mem_cons.mp hl with hl | hl
+  · subst hl; exact h.hdr_line i hi'
+  · have hmem := chunks60_mem _ l hl
+    have hns : ∀ t ∈ l, isSpace t = false := fun t ht => (h.row_sym i hi' t (hmem t ht)).2.1
+    constructor
+    · intro h10
+      have := hns 10 h10
+      simp [isSpace] at this
+    · intro h13
+      have hm : (13 : UInt8) ∈ l := List.mem_of_getLast? h13
+      have := hns 13 hm
+      simp [isSpace] at this
+
+/-- **AFA round trip on bytes** -/
+theorem afaRead_write (abc : Option Abc) (cfg : Cfg) (enc : UInt8 → UInt8) (m : Msa) (h : AfaWritable abc cfg enc m) :
+    afaRead cfg (splitLines (afaWrite abc m)) = (.ok (afaProject cfg m), []) := by
+  unfold afaWrite
+  rw [splitLines_join _ (afaWriteLines_ok abc cfg enc m h)]
+  exact afaRead_writeLines abc cfg enc m h
 
 end EaselModel.Msafile
